@@ -211,7 +211,7 @@ def _cg(
         # only print if loop was terminated via `break` otherwise everything is
         pp(i, energy=energy, energy_diff=energy_diff, norm=norm)
 
-    info = i if info == -1 else info
+    info = max(i, 1) if info == -1 else info
     return CGResults(x=pos, info=info, nit=i, nfev=nfev, success=info == 0)
 
 
